@@ -998,4 +998,232 @@ theorem ranges_eq_raw (c : Cfg) (offsets : List Nat) (out : Out) (hs : offsets.P
     (hf : TensorFacts c offsets out) : out.ranges = out.rawRanges := by
   rw [hf.dict]; exact orderedDict_of_distinct _ (rawRanges_distinct c offsets out hs hf)
 
+/-! ### artefact view of a model run -/
+open VelaVerif.WeightSpec
+
+def toARange (r : Range) : ARange := ⟨r.core, r.depth, r.offset, r.scaleBytes, r.weightOffset, r.weightBytes⟩
+
+/-- the artefact (what the Spec looks at) of a model run; `ranges` = the dict view -/
+def artefactOf (c : Cfg) (out : Out) : Artefact :=
+  ⟨out.stream.length, out.ranges.map toARange, out.dbs.1, out.dbs.2, c.doWeights⟩
+
+/-- same with every WeightRange object ever created (no dict overwriting) -/
+def rawArtefactOf (c : Cfg) (out : Out) : Artefact :=
+  ⟨out.stream.length, out.rawRanges.map toARange, out.dbs.1, out.dbs.2, c.doWeights⟩
+
+theorem toARange_stop (r : Range) : (toARange r).stop = r.stop := rfl
+
+theorem raw_aligned_ordered (c : Cfg) (offsets : List Nat) (out : Out) (hf : TensorFacts c offsets out) :
+    AlignedOk (rawArtefactOf c out) ∧ OrderedOk (rawArtefactOf c out) := by
+  refine ⟨?_, ?_, ?_⟩
+  · intro r hr
+    simp only [rawArtefactOf, List.mem_map] at hr
+    obtain ⟨r0, hr0, rfl⟩ := hr
+    have := hf.good.rng r0 hr0
+    exact ⟨this.offAligned, this.woAligned, this.wbAligned⟩
+  · simp only [rawArtefactOf]
+    rw [List.pairwise_map]
+    exact hf.good.ordered
+  · intro r hr
+    simp only [rawArtefactOf, List.mem_map] at hr
+    obtain ⟨r0, hr0, rfl⟩ := hr
+    have hg := hf.good.rng r0 hr0
+    refine ⟨hg.inside, ?_⟩
+    intro hw
+    have hw' : c.doWeights = true := hw
+    have := hg.wo
+    rw [hw'] at this
+    simp only [if_true] at this
+    show r0.scaleBytes ≤ r0.weightOffset
+    rw [this]; exact roundUp16_ge _
+
+theorem mem_expected (q : SReq) (e : Expect) (he : e ∈ expected q) :
+    (e.slice, e.off, e.len) ∈ slices q.offsets ∧ e.core < activeCores q := by
+  unfold expected at he
+  simp only [List.mem_flatMap, List.mem_map, List.mem_range] at he
+  obtain ⟨s, hs, k, hk, rfl⟩ := he
+  exact ⟨hs, hk⟩
+
+/-- facts about one slice of a valid request -/
+theorem slice_facts (q : SReq) (hv : ValidReq q) (s : Nat × Nat × Nat) (hs : s ∈ slices q.offsets) :
+    0 < s.2.2 ∧ s.2.1 + s.2.2 ≤ q.fullDepth := by
+  obtain ⟨_, _, _, hhead, hlast, hsorted⟩ := hv
+  cases hq : q.offsets with
+  | nil => rw [hq] at hs; simp [slices, slicesFrom] at hs
+  | cons a tl =>
+    rw [hq] at hs hlast hsorted
+    rw [getLast?_cons_lastOf] at hlast
+    injection hlast with hlast
+    have := ((slicesFrom_props a tl 0 hsorted).1 s hs)
+    rw [hlast] at this
+    exact ⟨this.2.2.1, this.2.2.2⟩
+
+
+/-- the model's ranges, paired with the Spec's expected (core, slice) list -/
+theorem made_expected (c : Cfg) (offsets : List Nat) (out : Out) (hb : c.ncores ≤ c.blockDepth)
+    (hf : TensorFacts c offsets out) :
+    All₂ (fun (e : Expect) (r : Range) => Made c e.slice e.off e.len e.core r) (expected (reqOf c offsets)) out.rawRanges := by
+  rw [← expectedM_expected c offsets hb]
+  exact All₂.map_left (R := fun (e : Expect) (r : Range) => Made c e.slice e.off e.len e.core r) toExpect hf.made
+
+theorem zip_map_right_mem {α β γ : Type} (l1 : List α) (l2 : List β) (g : β → γ) (p : α × γ)
+    (hp : p ∈ l1.zip (l2.map g)) : ∃ p' ∈ l1.zip l2, p = (p'.1, g p'.2) := by
+  induction l1 generalizing l2 with
+  | nil => simp at hp
+  | cons a t ih =>
+    cases l2 with
+    | nil => simp at hp
+    | cons b t2 =>
+      simp only [List.map_cons, List.zip_cons_cons, List.mem_cons] at hp
+      rcases hp with rfl | hp
+      · exact ⟨(a, b), by simp, rfl⟩
+      · obtain ⟨p', hp', rfl⟩ := ih t2 hp
+        exact ⟨p', by simp [hp'], rfl⟩
+
+theorem keys_ok (c : Cfg) (offsets : List Nat) (out : Out) (hb : c.ncores ≤ c.blockDepth)
+    (hf : TensorFacts c offsets out) : KeysOk (reqOf c offsets) (rawArtefactOf c out) := by
+  unfold KeysOk rawArtefactOf
+  simp only [List.map_map]
+  exact (made_expected c offsets out hb hf).map_eq _ _ (fun e r hm => by
+    simp only [Function.comp, toARange]; rw [hm.hcore, hm.hdepth])
+
+/-- scale section of one created range, when the Python slice does not overshoot -/
+theorem made_scale (c : Cfg) (idx off len core : Nat) (r : Range) (S : List Nat) (hm : Made c idx off len core r)
+    (hg : RangeGood c S r) (hlen : c.biases.length = c.scales.length) (hn : 0 < c.ncores) (hcore : core < c.ncores)
+    (hL : off + len ≤ c.biases.length) (hreg : len % c.ncores = 0 ∨ off + len = c.biases.length) :
+    r.scaleCh = chanOf c.ncores core off len ∧ r.scaleBytes = 10 * (chanOf c.ncores core off len).length ∧
+    (decodeRecords (bytesAt S r.offset r.scaleBytes)).map (fun l => l.map some)
+      = some ((chanOf c.ncores core off len).map ((expOf c)[·]?)) ∧
+    r.offset + r.scaleBytes ≤ S.length := by
+  have hch : r.scaleCh = chanOf c.ncores core off len := by
+    rw [hm.hscaleCh]; exact scale_slice_eq _ _ _ _ _ hn hcore hL hreg
+  have hrec := hm.recs
+  rw [← hlen, ← show scaleChannels c off len core = pySliceIdx c.biases.length (off + core) (off + core + len) c.ncores from rfl,
+    ← hm.hscaleCh] at hrec
+  obtain ⟨hl, hd⟩ := scaleRecords_diag c r.scaleCh r.scaleData hrec
+  refine ⟨hch, ?_, ?_, ?_⟩
+  · rw [hg.sbLen, hl, hch]
+  · rw [hg.scaleAt, hd, hch]
+  · have := hg.inside; have := r.stop_ge_scale; omega
+
+/-- weight section of one created range: the encoder was given exactly the channels of the (core, slice) -/
+theorem made_weights (c : Cfg) (idx off len core : Nat) (r : Range) (S : List Nat) (hm : Made c idx off len core r)
+    (hg : RangeGood c S r) (hw : c.doWeights = true) (hn : 0 < c.ncores) (hcore : core < c.ncores)
+    (hL : off + len ≤ c.fullDepth) :
+    r.weightCh = chanOf c.ncores core off len ∧
+    bytesAt S (r.offset + r.weightOffset) r.weightBytes = c.enc (chanOf c.ncores core off len) (cbdOf c core) := by
+  have hch : r.weightCh = chanOf c.ncores core off len := by
+    rw [hm.hweightCh, hw]; exact weight_slice_eq _ _ _ _ _ hn hcore hL
+  refine ⟨hch, ?_⟩
+  rw [hg.weightAt, hm.wdata, hw, hch, hm.hcbd]; rfl
+
+/-- DESIGN.md section 8 #11: two cores, 8 output channels, block depth 8, depth offsets [0, 3, 8] -/
+def witnessCfg : Cfg :=
+  { ncores := 2, fullDepth := 8, blockDepth := 8, doWeights := true,
+    scales := List.replicate 8 (1073741824, 30), biases := [920, -684, -791, 288, -272, 677, -373, -569],
+    enc := fun chs _ => List.replicate (16 * chs.length) 0 }
+
+
+theorem mem_expected_iff (q : SReq) (e : Expect) :
+    e ∈ expected q ↔ (e.slice, e.off, e.len) ∈ slices q.offsets ∧ e.core < activeCores q := by
+  constructor
+  · exact mem_expected q e
+  · rintro ⟨hs, hk⟩
+    unfold expected
+    simp only [List.mem_flatMap, List.mem_map, List.mem_range]
+    exact ⟨_, hs, e.core, hk, rfl⟩
+
+/-- Spec-level partition: the channel sets of the expected (core, slice) pairs cover `[0, depth)`,
+    stay inside it, are pairwise disjoint and repetition-free. -/
+theorem chans_partition (q : SReq) (hv : ValidReq q) :
+    (∀ ch, ch < q.fullDepth → ∃ e ∈ expected q, ch ∈ e.chans q) ∧
+    (∀ e ∈ expected q, ∀ ch ∈ e.chans q, ch < q.fullDepth) ∧
+    (∀ e1 ∈ expected q, ∀ e2 ∈ expected q, ∀ ch, ch ∈ e1.chans q → ch ∈ e2.chans q → e1 = e2) ∧
+    (∀ e ∈ expected q, (e.chans q).Nodup) := by
+  have hv' := hv
+  obtain ⟨hn, hb, hlen, hhead, hlast, hsorted⟩ := hv
+  cases hq : q.offsets with
+  | nil => rw [hq] at hlen; simp at hlen
+  | cons a tl =>
+    rw [hq] at hhead hlast hsorted
+    simp only [List.head?_cons, Option.some.injEq] at hhead
+    subst hhead
+    rw [getLast?_cons_lastOf] at hlast
+    injection hlast with hlast
+    obtain ⟨hp1, hp2, hp3⟩ := slicesFrom_props 0 tl 0 hsorted
+    have hsl : slices q.offsets = slicesFrom 0 (0 :: tl) := by rw [hq]; rfl
+    refine ⟨?_, ?_, ?_, ?_⟩
+    · intro ch hch
+      obtain ⟨s, hs, hin⟩ := hp3 ch (by omega) (by omega)
+      obtain ⟨_, _, _, hle⟩ := hp1 s hs
+      unfold inSlice at hin
+      refine ⟨⟨s.1, (ch - s.2.1) % q.ncores, s.2.1, s.2.2⟩, ?_, ?_⟩
+      · rw [mem_expected_iff]
+        refine ⟨by rw [hsl]; exact hs, ?_⟩
+        have h1 : (ch - s.2.1) % q.ncores < q.ncores := Nat.mod_lt _ (by omega)
+        have h2 : (ch - s.2.1) % q.ncores ≤ ch - s.2.1 := Nat.mod_le _ _
+        show (ch - s.2.1) % q.ncores < min q.ncores q.fullDepth
+        omega
+      · unfold Expect.chans
+        rw [mem_chanOf]
+        show ∃ j, j < s.2.2 ∧ j % q.ncores = (ch - s.2.1) % q.ncores ∧ ch = s.2.1 + j
+        exact ⟨ch - s.2.1, by omega, rfl, by omega⟩
+    · intro e he ch hch
+      obtain ⟨hs, _⟩ := mem_expected q e he
+      obtain ⟨_, hle⟩ := slice_facts q hv' _ hs
+      unfold Expect.chans at hch
+      rw [mem_chanOf] at hch
+      obtain ⟨j, hj, _, rfl⟩ := hch
+      simp only at hle; omega
+    · intro e1 he1 e2 he2 ch h1 h2
+      obtain ⟨hs1, _⟩ := mem_expected q e1 he1
+      obtain ⟨hs2, _⟩ := mem_expected q e2 he2
+      unfold Expect.chans at h1 h2
+      rw [mem_chanOf] at h1 h2
+      obtain ⟨j1, hj1, hm1, rfl⟩ := h1
+      obtain ⟨j2, hj2, hm2, hch⟩ := h2
+      rw [hsl] at hs1 hs2
+      have hsame : (e1.slice, e1.off, e1.len) = (e2.slice, e2.off, e2.len) := by
+        rcases pairwise_mem_cases hp2 _ _ hs1 hs2 with h | h | h
+        · exact h
+        · simp only at h; omega
+        · simp only at h; omega
+      simp only [Prod.mk.injEq] at hsame
+      obtain ⟨ha, hb', hc⟩ := hsame
+      have hj : j1 = j2 := by omega
+      subst hj
+      cases e1; cases e2
+      simp only at ha hb' hc hm1 hm2
+      subst ha; subst hb'; subst hc
+      rw [← hm1, ← hm2]
+    · intro e _
+      unfold Expect.chans
+      exact (chanOf_sorted _ _ _ _).imp (fun h => Nat.ne_of_lt h)
+
+
+theorem All₂.exists_right {α β : Type} {R : α → β → Prop} {a : List α} {b : List β} (h : All₂ R a b) :
+    ∀ x ∈ a, ∃ y ∈ b, R x y := by
+  induction h with
+  | nil => simp
+  | cons hx _ ih =>
+    intro x hx'
+    simp only [List.mem_cons] at hx'
+    rcases hx' with rfl | hx'
+    · exact ⟨_, by simp, hx⟩
+    · obtain ⟨y, hy, hr⟩ := ih x hx'
+      exact ⟨y, by simp [hy], hr⟩
+
+/-- `core_block_depth` is the number of block channels the core owns -/
+theorem cbdOf_eq_coreBlockDepth (c : Cfg) (core : Nat) (hn : 0 < c.ncores) (hc : core < c.ncores) :
+    cbdOf c core = coreBlockDepth c.ncores c.blockDepth core := by
+  have h := weight_slice_eq c.blockDepth c.ncores core 0 c.blockDepth hn hc (by omega)
+  have hl : (chanOf c.ncores core 0 c.blockDepth).length = coreBlockDepth c.ncores c.blockDepth core := by
+    simp [chanOf, coreBlockDepth]
+  rw [← hl, ← h]
+  simp only [pySliceIdx, List.length_map, List.length_range, Nat.zero_add, Nat.min_self]
+  unfold cbdOf
+  by_cases hcb : core ≤ c.blockDepth
+  · congr 1; omega
+  · rw [Nat.div_eq_of_lt (by omega), Nat.div_eq_of_lt (by omega)]
+
 end VelaVerif.WeightLayout
